@@ -136,8 +136,29 @@ func checkC06(e *Env) {
 	ns := e.fn("bundle/signature.NewSigner")
 	e.requireGates("GATE", ns, gate.Outcome{Kind: gate.ErrNil, Idx: 1}, noCfg,
 		gate.CallOK("NS.validate", "(certurl.CertChain).Validate", "param:certs"))
-	e.R.Floor("GATE", 30)
-	e.R.Floor("RESULT", 8)
+	// coverage decision: a URL counts as covered exactly when the leaf
+	// certificate verifies for its host name (port and IPv6 brackets stripped),
+	// and the tool signs every exchange so covered
+	cs := e.fn("bundle/signature.(*Signer).CanSignForURL")
+	e.requireGates("GATE", cs, gate.Outcome{Kind: gate.BoolTrue, Idx: 0}, noCfg,
+		gate.CallOK("CS.hostname", "(*x509.Certificate).VerifyHostname", "param:s.Certs[const:0].Cert", "call:(*url.URL).Hostname(param:u)"))
+	rejectionsListed(e, "REJECT", cs, gate.Outcome{Kind: gate.BoolTrue, Idx: 0}, noCfg, []gate.Gate{
+		gate.CallOK("CS.hostname", "(*x509.Certificate).VerifyHostname", "param:s.Certs[const:0].Cert", "call:(*url.URL).Hostname(param:u)")},
+		"the leaf certificate does not verify for the URL's host name")
+	if as := e.fn("bundle/cmd/sign-bundle.addSignature"); as != nil {
+		tEx := "param:b.Exchanges[rangeidx]"
+		forAllIterations(e, "FORALL", as, "param:b.Exchanges", noCfg, either("AS.covered-signed", "the exchange is not covered, or it is added to the signed subset",
+			gate.CallBool("", "(*signature.Signer).CanSignForURL", false, "param:signer", tEx+".Request.URL"),
+			gate.CallOK("", "(*signature.Signer).AddExchange", "param:signer", tEx, "call:(*bundle.Exchange).AddPayloadIntegrity("+tEx+",param:b.Version,*)#0")))
+		e.requireStore("RESULT", as, "param:b.Signatures", "call:(*signature.Signer).UpdateSignatures(param:signer,param:b.Signatures)#0", "the signatures section extended by this signer")
+	}
+	e.R.Floor("FORALL", 3)
+	// one subset hash / one verification per exchange and per vouched subset
+	iterationsIndependent(e, "ITER", e.fns("bundle/cmd/sign-bundle.addSignature", "bundle/signature.(*Signer).UpdateSignatures", "bundle/signature.(*Signer).AddExchange",
+		"bundle/signature.NewVerifier", "bundle/signature.(*Verifier).VerifyExchange", "bundle.newSignaturesSection", "bundle.parseSignaturesSection")...)
+	e.R.Floor("ITER", 6)
+	e.R.Floor("GATE", 31)
+	e.R.Floor("RESULT", 9)
 	e.R.Floor("COVER", 8)
 
 	// key tables
